@@ -8,3 +8,6 @@ mod virtual_inventory;
 pub use market::{MarketModel, PositionOptions, SwapPricingKind};
 pub use position::PositionModel;
 pub use virtual_inventory::VirtualInventoryModel;
+
+#[cfg(gmsol_verif)]
+pub use clock::verif_set_now;
